@@ -1037,9 +1037,18 @@ def round_trips(spec, tmpdir):
 
         # dictionary
         tree = None
+        if what == 'basis' and x.is_sparse:
+            # the sparse storage as it is before to_dict (model: SpStore)
+            T0 = x._transformation_matrix
+            obs['spfmt'] = T0.format
+            if T0.format in ('csr', 'csc') and T0.dtype.kind in 'biuf':
+                obs['spraw'] = encode({'data': T0.data, 'indices': T0.indices, 'indptr': T0.indptr, 'shape': [int(n_) for n_ in T0.shape]})
+                obs['spdense'] = enc_arr(T0.toarray())
         try:
             tree = x.to_dict()
             obs['to_dict'] = 'ok'
+            if 'spraw' in obs:
+                obs['sptree'] = encode(tree['transformation_matrix'])
         except Exception as e:  # noqa
             obs['to_dict'] = ERRMAP.get(type(e).__name__, 'other:' + type(e).__name__)
         unchanged('to_dict', 'dict')
@@ -1389,6 +1398,10 @@ def model_requests(spec, obs):
         if what == 'field' and 'getstate' in obs:
             lay, exp = obs['getstate']
             reqs.append(('getstate', 'C16 getstate field %s %s' % (lay, obs['dict_tree']), exp))
+    if 'spraw' in obs and 'sptree' in obs:
+        exp = 'ok wf=true dense=%s csrdense=%s tree=%s' % (obs['spdense'], obs['spdense'], obs['sptree'])
+        reqs.append(('spstore', 'C16 spstore %s new %s' % (obs['spfmt'], obs['spraw']), exp))
+        reqs.append(('spstore-old', 'C16 spstore %s old %s' % (obs['spfmt'], obs['spraw']), 'ok wf=true tree=' + obs['sptree']))
     for rec in obs.get('dtypes', []):
         tag = rec['d'].lstrip('<>|=')
         if rec['read'] is None:
@@ -1541,6 +1554,8 @@ def check_spec(ctx, spec, tmpdir, batch):
         ctx.count('default-pickling-monitored:' + what)
     if 'nogrid_tree' in obs:
         ctx.count('basis-without-grid:sent-to-model')
+    if 'spfmt' in obs:
+        ctx.count('sparse-storage-at-write:%s%s' % (obs['spfmt'], ' (sent to the model)' if 'spraw' in obs else ''))
     for o in obs.get('named', []):
         ctx.count('named-file:%s:%s' % ('fmt=' + (o['fmt'] or 'None'), 'written as %s, read %s' % (o['fam'], o['r']) if o['w'] == 'ok' else 'write-refused-' + o['w']))
         ctx.count('named-file:name:' + o['name'])
@@ -1713,10 +1728,15 @@ def run(ctx):
     old_agree = old_total = 0
     gold_agree = gold_total = 0
     bad_differs = bad_total = bad_lazy = 0
+    sp_agree = sp_total = 0
     for (spec, label, line, exp), resp in zip(batch, out):
         if label.startswith('fits-old'):
             old_total += 1
             old_agree += (canon_scalars(resp) == canon_scalars(exp))
+            continue
+        if label == 'spstore-old':
+            sp_total += 1
+            sp_agree += (canon_answer(resp) == canon_answer(exp))
             continue
         if label == 'gridold' or label.startswith('file-old'):
             gold_total += 1
@@ -1737,6 +1757,8 @@ def run(ctx):
             resp, exp = canon_scalars(resp), canon_scalars(exp)
         if label.startswith('file-') or label == 'todict-st':
             resp, exp = canon_answer(resp), canon_answer(exp)
+        if label == 'spstore':
+            resp, exp = canon_answer(resp), canon_answer(exp)
         if label in ('filert', 'chain'):
             resp, exp = canon_answer(canon_scalars(resp)), canon_answer(canon_scalars(exp))
         if resp != exp:
@@ -1744,6 +1766,7 @@ def run(ctx):
         ctx.count('model-stream:' + label.split(':')[0])
     ctx.extra['impl_agrees_with_model_of_unrepaired_fits_paths'] = '%d/%d' % (old_agree, old_total)
     ctx.extra['impl_agrees_with_model_of_unrepaired_grid_registry_D161'] = '%d/%d' % (gold_agree, gold_total)
+    ctx.extra['impl_agrees_with_model_of_unrepaired_sparse_to_dict_D162'] = '%d/%d' % (sp_agree, sp_total)
     ctx.extra['bad_to_dict_model_told_apart'] = '%d of %d objects (%d had _weights None)' % (bad_differs, bad_total, bad_lazy)
 
 
